@@ -542,8 +542,14 @@ type fakeClient struct {
 
 func (f *fakeClient) SendDisconnect(reason chat.Message) { f.gone = true }
 
-func playerListScenario(capacity int) Scenario {
-	return Scenario{Name: fmt.Sprintf("playerlist/cap=%d", capacity), Horizon: 4000, Body: func(x *Exec) {
+// alwaysLeave: every client that called ClientJoin calls ClientLeft afterwards, also the ones the list turned
+// away (a server that defers ClientLeft next to ClientJoin), and an admitted client leaves twice.
+func playerListScenario(capacity int, alwaysLeave bool) Scenario {
+	name := fmt.Sprintf("playerlist/cap=%d", capacity)
+	if alwaysLeave {
+		name += "/refused-clients-leave-too"
+	}
+	return Scenario{Name: name, Horizon: 4000, Body: func(x *Exec) {
 		pl := server.NewPlayerList(capacity)
 		var hs []sched.Handle
 		for c := 1; c <= 3; c++ {
@@ -556,7 +562,10 @@ func playerListScenario(capacity int) Scenario {
 				if n := pl.Len(); n > capacity {
 					x.fail("player list over capacity: holds %d players, capacity is %d", n, capacity)
 				}
-				if !cl.gone {
+				if !cl.gone || alwaysLeave {
+					pl.ClientLeft(cl)
+				}
+				if alwaysLeave && !cl.gone {
 					pl.ClientLeft(cl)
 				}
 			}))
@@ -600,8 +609,10 @@ func scenarios(thorough bool) []Scenario {
 		poolScenario(2, true),
 		poolScenarioF(2, true, true),
 		nbtCacheScenario(2),
-		playerListScenario(1),
-		playerListScenario(2),
+		playerListScenario(1, false),
+		playerListScenario(2, false),
+		playerListScenario(1, true),
+		playerListScenario(2, true),
 		chunkScenario(2),
 		chatScenario(2),
 		nbtValueScenario(2),
